@@ -27,13 +27,16 @@ def _transfer(ctx, sub, rules, rename=None):
             ctx.rules[r] = sub.rules[r]
 
 
-def _from_read_many(arg, func):
-    """The tree handed to hy_compile is what read_many returned for the source (possibly wrapped)."""
-    if isinstance(arg, ast.Call):
-        return any(isinstance(c, ast.Call) and dotted(c.func) == "read_many" for c in ast.walk(arg))
-    if isinstance(arg, ast.Name):
-        defs = [n for n in ast.walk(func) if isinstance(n, ast.Assign) and any(isinstance(t, ast.Name) and t.id == arg.id for t in n.targets)]
-        return bool(defs) and all(any(isinstance(c, ast.Call) and dotted(c.func) == "read_many" for c in ast.walk(d.value)) for d in defs)
+def _from_read_many(arg, func, depth=0):
+    """Does the stream handed to hy_compile come from read_many (directly, or through wrappers that take it as an argument)?"""
+    if any(isinstance(c, ast.Call) and dotted(c.func) == "read_many" for c in ast.walk(arg)):
+        return True
+    if depth > 4:
+        return False
+    for nm in [n for n in ast.walk(arg) if isinstance(n, ast.Name)]:
+        defs = [n for n in ast.walk(func) if isinstance(n, ast.Assign) and any(isinstance(t, ast.Name) and t.id == nm.id for t in n.targets)]
+        if defs and all(_from_read_many(d.value, func, depth + 1) for d in defs):
+            return True
     return False
 
 
@@ -55,8 +58,11 @@ def check(ctx, src):
     ctx.need(asg is not None, "hy2py_worker: hy_compile call not found")
     v = norm(asg.targets[0])
     un = [c for c in pyq.calls(w) if dotted(c.func) == "ast.unparse"]
-    ctx.check(len(un) == 1 and norm(un[0].args[0]) == v and _from_read_many(asg.value.args[0], w), "H2P-SAME", f"{CM}|hy2py_worker|unparse(compiled)", f"hy2py prints `{norm(un[0]) if un else None}`; it must unparse the module `{v}` that hy_compile returned for the whole stream",
-              CM, w.lineno, witness="hy2py prints code for a different tree than the one that is executed", detail=f"ast.unparse({v})")
+    same = len(un) == 1 and norm(un[0].args[0]) == v
+    whole = _from_read_many(asg.value.args[0], w)
+    ctx.decide("H2P-SAME", f"{CM}|hy2py_worker|unparse(compiled)", False if (un and not same) else (True if same and whole else None),
+               f"hy2py prints `{norm(un[0]) if un else None}`; it must unparse the module `{v}` that hy_compile returned for the whole stream",
+               CM, w.lineno, witness="hy2py prints code for a different tree than the one that is executed", detail=f"ast.unparse({v})")
     stores = [n for n in ast.walk(w) if isinstance(n, (ast.Assign, ast.AugAssign)) and norm(n.targets[0] if isinstance(n, ast.Assign) else n.target).startswith(v) and n is not asg]
     ctx.check(not stores, "H2P-SAME", f"{CM}|hy2py_worker|not modified", f"the compiled module is modified before printing: {[norm(s)[:40] for s in stores]}", CM, w.lineno, detail="unmodified")
     # --- keyword mincing
